@@ -101,6 +101,33 @@ def native_check(seed=0, trees=60, depth=6):
     if not torch.allclose(Hs.apply(st, smp), base, rtol=1e-10, atol=1e-12) or not torch.allclose(H2s.apply(st, smp), base + 3, rtol=1e-10, atol=1e-12) \
             or not torch.allclose((2 * Hs - (Hs + SigmaZ())).apply(st, smp), 2 * base - (base + SigmaZ().apply(st, smp)), rtol=1e-10, atol=1e-12):
         fails.append((repr(Hs), "an operand changed its value after composites were built from it (or a shared sub-expression is wrong)"))
+    # an evaluation in which a leaf raised (caught by the caller) leaves no trace
+    class Refusing(ObservableBase):
+        refuse = False
+
+        def apply(self, nn_state, samples):
+            if self.refuse:
+                raise ValueError("refused by a leaf")
+            return samples.sum(-1) * 0.5
+    rf = Refusing()
+    shared = SigmaZ() + NeighbourInteraction(c=1)
+    tree = (shared * 2 + rf) - shared
+    want = lambda s_, x: shared.apply(s_, x) * 2 + rf.apply(s_, x) - shared.apply(s_, x)      # noqa: E731
+    tree.apply(st, smp)
+    rf.refuse = True
+    try:
+        tree.apply(st, smp)
+        fails.append((repr(tree), "an error raised by a leaf did not reach the caller"))
+    except ValueError:
+        pass
+    rf.refuse = False
+    smp2 = torch.tensor(rng.integers(0, 2, size=(6, 3)), dtype=torch.double)
+    n += 1
+    ref_sh = SigmaZ().apply(st, smp2) + NeighbourInteraction(c=1).apply(st, smp2)
+    if not torch.allclose(tree.apply(st, smp2), ref_sh * 2 + rf.apply(st, smp2) - ref_sh, rtol=1e-10, atol=1e-12) \
+            or not torch.allclose(shared.apply(st, smp2), ref_sh, rtol=1e-10, atol=1e-12) \
+            or not torch.allclose((SigmaZ() * 3 + SigmaX()).apply(st, smp2), SigmaZ().apply(st, smp2) * 3 + SigmaX().apply(st, smp2), rtol=1e-10, atol=1e-12):
+        fails.append((repr(tree), "evaluations after a failed evaluation (a leaf raised, the caller caught it) are not the arithmetic on the current leaves"))
     for bad in (lambda: SigmaX() * SigmaZ(), lambda: ProdObservable(2, 3)):
         try:
             bad()
